@@ -87,6 +87,20 @@ def c05():
     r["ret12"] = list(r["ret12"])
     r["ret12"][-1] = (r["ret12"][-1] + 7) % 10000 or 1
     yield "returned cost altered", "VpscTrace", "VpscTrace.cfg", r, "C05_CostConsistent"
+    # full-precision cost consistency on a heavy instance: an error of 5e-5 in the reported cost is far inside the allowance of
+    # the 1e-6 grid (wall-like weights) and must be rejected by the fine clause
+    out = core.run_driver("d_vpsc.py", stdin_obj={"seed": 4, "count": 120, "mode": "heavy"})
+    val = lambda l: sum(d * 10000 ** i for i, d in enumerate(l))
+    # (an instance whose heavy variables hardly move: cost below 1, so the allowance is about 1e-6)
+    allowance = lambda r: sum(val(w) * (val(d) + 1) for w, d in zip(r["wt100"], r["disp12"])) + 10 ** 20 + val(r["ret26"]) // 10 ** 8
+    r = _first(out["records"], lambda r: r["terminated"] and r["ret26"] and allowance(r) < 10 ** 21)
+    big = val(r["ret26"]) + 5 * 10 ** 21
+    limbs = []
+    while big:
+        limbs.append(big % 10000)
+        big //= 10000
+    r["ret26"] = limbs
+    yield "returned cost of a heavy instance off by 5e-5", "VpscBig", "VpscBig.cfg", r, "C05_CostConsistentFine"
 
 
 def _draw_records():
@@ -103,6 +117,9 @@ def c07():
     b = r["svg"]["boxes"]
     b[0]["text"], b[1]["text"] = b[1]["text"], b[0]["text"]
     yield "texts of two boxes swapped", "DrawTrace", "DrawC07.cfg", r, "C07_TextVerbatim"
+    r = _first(recs, lambda r: r["svg"]["n"] >= 1)
+    r["svg"]["dots"][0]["pos5"] = r["svg"]["L5"] + 200000       # a dot two units beyond the end of the axis
+    yield "one SVG dot beyond the end of the axis", "DrawTrace", "DrawC07.cfg", r, "C07_DotsOnAxisSegment"
 
 
 def c08():
@@ -124,6 +141,8 @@ def c09():
 
 
 def c06():
+    for x in c06_engine():
+        yield x
     h = [{"a": "N", "n": 0, "x": 8, "y": 4}, {"a": "S", "n": 1, "x": 4, "y": 0}, {"a": "M", "n": 1, "x": 20, "y": 0}, {"a": "R", "n": 1, "x": 0, "y": 0}]
     out = core.run_driver("d_node.py", stdin_obj={"seed": 1, "histories": [h], "count": 0})
     r = out["records"][0]
@@ -133,6 +152,17 @@ def c06():
     r["ev"][1]["obs"][0]["path"] = [1, 2]
     r["ev"][3]["obs"][1]["stub"] = 1
     yield "node heap: a detached stub still claims to be a stub (model conformance)", "NodeTrace", "NodeTrace.cfg", r, "Drift_NodeObservers"
+
+
+def c06_engine():
+    out = core.run_driver("d_engine.py", stdin_obj={"random": {"seed": 5, "count": 12}})
+    r = _first(out["records"], lambda r: any(e["a"] == "C" and e.get("ref0") for e in r["ev"]))
+    for e in r["ev"]:
+        if e["a"] == "C" and e.get("ref0"):
+            e["ref0"] = copy.deepcopy(e["ref0"])
+            e["ref0"][0][3] += 4                                # the history-free process puts one label one unit elsewhere
+            break
+    yield "history-free reference differs by one unit in one label", "EngineTrace", "EngineTrace.cfg", {"ev": r["ev"]}, "C06_PureOfProcessHistory"
 
 
 def c12():
@@ -244,7 +274,7 @@ def run(pid):
         return 0
     bad = 0
     for what, module, cfg, rec, clause in TABLE[pid]():
-        expect = "init" if module in ("VpscTrace", "TimeHistTrace", "LinHistTrace", "NodeTrace") else "distinct"
+        expect = "init" if module in ("VpscTrace", "TimeHistTrace", "LinHistTrace", "NodeTrace", "EngineTrace") else "distinct"
         fails, _ = core.validate_records(module, cfg, [rec], expect=expect)
         names = [f[1] for f in fails]
         ok = clause in names
